@@ -552,12 +552,20 @@ structural mismatch) gives the same answer whether or not the mask is the causal
 theorem gqa_mask_not_consulted (i : GqaIn) :
     gqa { i with maskOk := true } = gqa { i with maskOk := false } := rfl
 
-/-- `FuseBiasMHA` never looks at the value added to the query projection (written `Add(projection, y)`): the
-decision and the emitted node are the same for every shape of `y` (finding C19-F12). -/
-theorem mha_bias_accepts_any_addend (i : MhabIn) (y1 y2 : Option Shape) :
-    mhab { i with biasFirst := false, qbias := y1 } = mhab { i with biasFirst := false, qbias := y2 } := by
-  unfold mhab
-  simp
+/-- The current `FuseBiasMHA.check` leaves `MultiHeadAttention(Add(q, y:[B,S,D]), k, Add(v, bias))` alone: a full-rank
+addend is not a bias (witness of C19-F12; no scale involved). -/
+theorem mha_bias_rejects_full_rank_addend :
+    mhab { qm := some [.int 2, .int 1, .int 4], km := some [.int 2, .int 3, .int 4], vm := some [.int 2, .int 3, .int 4],
+           qbias := some [.int 2, .int 1, .int 4], dt := 1, qb := true, kb := false, vb := true, biasFirst := false,
+           heads := 2, pre := none, preConst := true, ascale := none, mask := false } = "count=0/0" := by decide
+
+/-- Before commit 639f07c `FuseBiasMHA` never looked at the value added to the query projection (written
+`Add(projection, y)`): the decision and the emitted node were the same for every shape of `y` (finding C19-F12, fixed). -/
+theorem mha_bias_addend_prefix_refuted (i : MhabIn) (y1 y2 : Option Shape) :
+    mhab { i with fix12 := false, biasFirst := false, qbias := y1 }
+      = mhab { i with fix12 := false, biasFirst := false, qbias := y2 } := by
+  obtain ⟨qm, km, vm, qbias, dt, qb, kb, vb, biasFirst, heads, pre, preConst, ascale, mask, fix12⟩ := i
+  cases pre <;> cases preConst <;> cases qb <;> simp [mhab]
 
 /-! ## Decisions: facts about the transcribed checks -/
 
@@ -605,10 +613,33 @@ theorem bias_gelu_check_sound (input bias : Option Shape) (h : biasOk true input
 example : biasOk true (some [.int 2, .int 8]) (some [.int 8]) = true := by decide
 example : biasGelu false (some [.int 2, .int 8]) (some [.int 1]) = "count=0" := by decide
 
-/-- `RmsNormFusion` with `Mul(scale_cast, normalized)`: the `scale` variable is bound to the value *before*
-its `Cast` (dtype float16 = 10) while the product is computed in float (1); the fused operator's output type
-is the scale's (finding C19-F6). -/
-theorem rms_scale_cast_changes_output_dtype :
+/-- A structurally nominal RMS-norm instance (float everywhere, scalar epsilon), used by the statements below. -/
+def rmsNominal : RmsIn :=
+  { xdt := 1, sdt := 1, castIn := false, cdt := 1, castOut := false, tdt := 1, scaleCast := false,
+    mulOrder := false, innerSwap := false, epsConst := true, epsSize := 1, eps := 1e-6, axes := [-1], pow := 2.0,
+    powRank := 0, keepdims := some 1, noop := some 0, xRank := 2, scaleRank := 1, epsRank := 0 }
+
+/-- `orCast`: with `Mul(Cast(scale: float16 → float), normalized)` the `scale` variable is bound to the value
+*before* its `Cast` (dtype float16 = 10) while the product is float (1). -/
+theorem rms_scale_cast_binds_before_cast :
     orCast true 1 10 none = (true, 10, some 1) := by decide
+
+/-- **The three guards of the current `RmsNormFusion.check`** (commits 860eec7, 655e32d, a2dc518), for EVERY
+instance: a scale bound before a type-changing Cast, a scale of higher rank than `x`, or an epsilon of higher
+rank than `x` each leave the model unchanged, whenever the guard is active. -/
+theorem rms_guards (i : RmsIn) :
+    (i.fix10 = true → i.epsRank > i.xRank → rms i = "count=0")
+    ∧ (i.fix7 = true → i.scaleRank > i.xRank → rms i = "count=0") := by
+  constructor
+  · intro hf hr
+    unfold rms
+    simp only [hf, hr, decide_true, Bool.true_and, if_true]
+    repeat' split
+    all_goals rfl
+  · intro hf hr
+    unfold rms
+    simp only [hf, hr, decide_true, Bool.true_and, if_true]
+    repeat' split
+    all_goals rfl
 
 end OV.Props.C19
